@@ -149,3 +149,120 @@ def c20(chk, prop, tier, seed, nshards, workdir, t0):
         "public_functions_not_in_call_table": sorted(pubs - covered),
     }
     return chk.finish(prop, tier, seed, merged, time.time() - t0, extra_cov=extra_cov)
+
+
+def _sanitizer_env():
+    env = dict(os.environ, CARGO_NET_OFFLINE="true")
+    return env
+
+
+def _start_tsan(chk, workdir, seed):
+    """Builds the harness with ThreadSanitizer (nightly, -Zbuild-std) and runs the light C07
+    workload plus the small c07 binary. Returns a dict with the outcome."""
+    env = _sanitizer_env()
+    env["RUSTFLAGS"] = "-Zsanitizer=thread"
+    env["CARGO_TARGET_DIR"] = os.path.join(chk.VERIF, ".target-tsan")
+    build = subprocess.run(["cargo", "+nightly", "build", "--offline", "--release", "-Zbuild-std", "--target", "x86_64-unknown-linux-gnu",
+                            "--manifest-path", os.path.join(chk.HARNESS, "Cargo.toml")], env=env, stdout=subprocess.PIPE, stderr=subprocess.STDOUT, text=True)
+    if build.returncode != 0:
+        return {"status": "unavailable", "why": build.stdout[-1500:]}
+    bindir = os.path.join(env["CARGO_TARGET_DIR"], "x86_64-unknown-linux-gnu", "release")
+    renv = dict(os.environ, TSAN_OPTIONS="halt_on_error=0 exitcode=66 second_deadlock_stack=1", RAYON_NUM_THREADS="4")
+    out = os.path.join(workdir, "tsan-report.json")
+    runs = [
+        [os.path.join(bindir, "gverif"), "C07", "--tier", "quick", "--seed", str(seed), "--shard", "0/1", "--extra", "light", "--out", out, "--cpu-budget", "600"],
+        [os.path.join(bindir, "c07_miri"), str(seed)],
+    ]
+    reports, mismatch, rcs = [], False, []
+    for cmd in runs:
+        p = subprocess.run(cmd, env=renv, stdout=subprocess.PIPE, stderr=subprocess.PIPE, text=True)
+        rcs.append(p.returncode)
+        if "C07-MISMATCH" in p.stdout:
+            mismatch = True
+        blocks = p.stderr.split("WARNING: ThreadSanitizer:")
+        for b in blocks[1:]:
+            reports.append(b[:3000])
+    harness_violations = []
+    try:
+        harness_violations = json.load(open(out)).get("violations", [])
+    except Exception:
+        pass
+    in_repo = [r for r in reports if "/repo/src" in r or "graphrs::" in r]
+    return {"status": "ran", "exit_codes": rcs, "reports": len(reports), "reports_with_graphrs_frame": len(in_repo),
+            "first_report": (in_repo or reports or [""])[0][:1500], "mismatch": mismatch, "harness_violations": harness_violations}
+
+
+def _run_miri(chk, seeds):
+    """Runs the small c07 binary under Miri (Tree Borrows, data-race detection) for several
+    scheduler seeds in parallel."""
+    env = _sanitizer_env()
+    env["CARGO_TARGET_DIR"] = os.path.join(chk.VERIF, ".target-miri")
+    base_flags = "-Zmiri-disable-isolation -Zmiri-permissive-provenance -Zmiri-tree-borrows -Zmiri-ignore-leaks"
+    man = os.path.join(chk.HARNESS, "Cargo.toml")
+    # build once so that the parallel runs do not fight over the cargo lock
+    env0 = dict(env, MIRIFLAGS=base_flags)
+    b = subprocess.run(["cargo", "+nightly", "miri", "run", "--offline", "--manifest-path", man, "--bin", "c07_miri", "--", "0", "build-only-probe"],
+                       env=dict(env0, MIRI_BUILD_ONLY="1"), stdout=subprocess.PIPE, stderr=subprocess.STDOUT, text=True) if False else None
+    procs = []
+    for s in seeds:
+        e = dict(env, MIRIFLAGS=base_flags + " -Zmiri-seed=%d" % s)
+        procs.append((s, subprocess.Popen(["cargo", "+nightly", "miri", "run", "--offline", "--manifest-path", man, "--bin", "c07_miri", "--", str(s), "mini"],
+                                          env=e, stdout=subprocess.PIPE, stderr=subprocess.STDOUT, text=True)))
+        time.sleep(1.0 if len(procs) > 1 else 45.0)  # the first run compiles; the others reuse it
+    return procs
+
+
+def c07(chk, prop, tier, seed, nshards, workdir, t0):
+    """C07: native differential over pool sizes / delays (always); thorough adds a
+    ThreadSanitizer build and Miri runs of a reduced workload."""
+    binary = chk.build()
+    miri_procs, tsan = [], None
+    if tier == "thorough":
+        miri_procs = _run_miri(chk, [seed * 100 + i for i in range(8)])
+    os.environ["RAYON_NUM_THREADS"] = "8"
+    try:
+        reports, synthetic = chk.run_shards(binary, prop, tier, seed, nshards, workdir)
+    finally:
+        del os.environ["RAYON_NUM_THREADS"]
+    merged = chk.merge(reports)
+    merged["violations"].extend(synthetic)
+    # schedule evidence: distinct schedules observed per pool size, summed over shards
+    sched = {}
+    for r in reports:
+        for k, v in r.get("notes", {}).get("schedules_observed_in_this_shard", {}).items():
+            a = sched.setdefault(k, {"distinct_item_to_worker_assignments": 0, "distinct_start_orders": 0})
+            a["distinct_item_to_worker_assignments"] += v["distinct_item_to_worker_assignments"]
+            a["distinct_start_orders"] += v["distinct_start_orders"]
+    merged["notes"].pop("schedules_observed_in_this_shard", None)
+    extra = {"schedules_observed": sched, "sanitizers": {}}
+    inconclusive = None
+    if tier == "thorough":
+        tsan = _start_tsan(chk, workdir, seed)
+        extra["sanitizers"]["thread_sanitizer"] = {k: v for k, v in tsan.items() if k != "harness_violations"}
+        if tsan["status"] == "ran":
+            merged["counters"]["reach:tsan-run"] = 1
+            if tsan["reports_with_graphrs_frame"] > 0 or tsan["mismatch"] or tsan["harness_violations"]:
+                sig = "%s|thread-sanitizer|%s|any" % (prop, "data-race-report-with-graphrs-frame" if tsan["reports_with_graphrs_frame"] else "result-mismatch-under-tsan")
+                merged["violations"].append({"signature": sig, "what": "ThreadSanitizer run of the C07 workload reported a problem inside graphrs",
+                                             "detail": {"first_report": tsan["first_report"], "harness_violations": [v["signature"] for v in tsan["harness_violations"]]},
+                                             "case_index": None, "case": None, "replay": {"prop": prop, "seed": seed, "tier": tier, "case_index": None, "extra": []}})
+                merged["sig_counts"][sig] = 1
+        miri_out = []
+        for s, p in miri_procs:
+            try:
+                out, _ = p.communicate(timeout=3600)
+            except subprocess.TimeoutExpired:
+                p.kill()
+                out = "TIMEOUT"
+            ok = "c07_miri ok" in out and p.returncode == 0
+            ub = "Undefined Behavior" in out or "data race" in out.lower()
+            mism = "C07-MISMATCH" in out
+            miri_out.append({"scheduler_seed": s, "ok": ok, "undefined_behaviour_or_race": ub, "mismatch": mism, "tail": "" if ok else out[-1200:]})
+            if ub or mism:
+                sig = "%s|miri|%s|any" % (prop, "undefined-behaviour-or-data-race" if ub else "result-mismatch-under-miri")
+                merged["violations"].append({"signature": sig, "what": "Miri run of the reduced C07 workload failed", "detail": {"output_tail": out[-2500:], "scheduler_seed": s},
+                                             "case_index": None, "case": None, "replay": {"prop": prop, "seed": seed, "tier": tier, "case_index": None, "extra": []}})
+                merged["sig_counts"][sig] = merged["sig_counts"].get(sig, 0) + 1
+        extra["sanitizers"]["miri"] = {"runs": miri_out, "flags": "-Zmiri-tree-borrows -Zmiri-permissive-provenance -Zmiri-ignore-leaks -Zmiri-disable-isolation -Zmiri-seed=<n>"}
+        merged["counters"]["reach:miri-runs-completed"] = len([m for m in miri_out if m["ok"]])
+    return chk.finish(prop, tier, seed, merged, time.time() - t0, extra_cov=extra, inconclusive=inconclusive)
